@@ -223,3 +223,28 @@ theorem C07_train_chunks_k {St X Y O : Type} (pred : St → X → O) (step : St 
       | cons x l ih => simp only [gatedFrom, hl, hl', or_false]; split <;> simp [ih (i + 1)]
     exact gen _ _ 0 xs h3 h1
   rw [e1, Nat.zero_add, gshift (xs ++ ys).length ys.length xs.length ys h3 h2 hdiv]
+
+
+
+theorem enterState_compose (net : FNet S M) (order : List Nat) (fs : Nat → Option S) (reset : Bool) (σ : Store S M) :
+    enterState net order fs false (enterState net order (fun _ => none) reset σ) = enterState net order fs reset σ := by
+  apply Store.ext'; intro v
+  simp only [enterState, Store.get]
+  by_cases hv : v ∈ order
+  · simp only [hv, if_true]
+    cases fs v <;> simp
+  · simp [hv]
+
+/-- **One run = one call, with the options.** A stateful `call(x, from_state, reset)` is the run of the one-row sequence
+    `[x]` with the same options: same observation, same final store. The states are set (`from_state`, `reset`) BEFORE
+    the feedback proxies are loaded, in both. With `C07_model_chunks` this gives: a sequence run from zero or from
+    given states = a first call carrying the option, then plain calls. -/
+theorem C07_call_eq_run1_opts (net : FNet S M) (order : List Nat) (σ : Store S M) (x : Nat → Option S)
+    (o : RunOpts S) (ho : o.stateful = true) :
+    (callModel net order o x none σ).1 = ((runSeq net order o [(x, none)] σ).1.headD σ)
+    ∧ (callModel net order o x none σ).2 = (runSeq net order o [(x, none)] σ).2 := by
+  simp only [callModel, runSeq, loopM, stepM, exitState, ho, if_true, List.headD_cons, enterState_compose]
+  refine ⟨trivial, ?_⟩
+  apply Store.ext'; intro v
+  simp only [cleanProxys, loadProxys, Store.get]
+  split <;> rfl
